@@ -2060,6 +2060,15 @@ fn check_definitions<'a>(
             let new_depth = depth + definitions.len();
 
             for i in 0..definitions.len() {
+                // Check any definitions nested inside this one.
+                check_definitions(
+                    source_path,
+                    source_contents,
+                    &definitions[i].2,
+                    new_depth,
+                    errors,
+                );
+
                 if !is_value(&definitions[i].2) {
                     let mut visited = HashSet::new();
 
